@@ -3,6 +3,7 @@ C17 — witnesses: clauses of the property that are false of the current code, o
 (mirrored by `finding:` lines of known_findings.txt and by the replay functions of py/props/c17.py).
 -/
 import WpModel.Props.C17
+import WpModel.Lemmas.ToUnicode
 
 set_option linter.unusedSimpArgs false
 
@@ -60,5 +61,20 @@ theorem inline_root_background_not_first :
     point7With, point7List, lastIsLine, Kind.drawReplaced, outlineList, ownOutline, inlKids, inlBoxWith,
     decoration, drawBackground, drawBorder, drawText, Kind.dilInlineOrLine, Kind.dilTextChild, Node.attrs?,
     Kind.drawLine]
+
+end Wp.C17.Witness
+
+namespace Wp.C17.Witness
+open Wp Wp.ToUnicode
+
+/-- Known finding `tounicode-shared-glyph`: the functional hypothesis of `tounicode_maps_back` is
+necessary.  A font that draws U+0020 and U+00A0 with the same glyph (3) records the first text only, so
+"a b c" maps back to "a b c": the no-break space is lost. -/
+theorem shared_glyph_maps_back_wrong :
+    decode (recordAll [] [(68, [0x61]), (3, [0x20]), (69, [0x62]), (3, [0xa0]), (70, [0x63])])
+        [68, 3, 69, 3, 70] = some [0x61, 0x20, 0x62, 0x20, 0x63] ∧
+    [(68, [0x61]), (3, [0x20]), (69, [0x62]), (3, [0xa0]), (70, [0x63])].flatMap (·.2)
+      = [0x61, 0x20, 0x62, 0xa0, 0x63] := by
+  decide
 
 end Wp.C17.Witness
